@@ -138,7 +138,16 @@ fn main() {
             }
             let seed = parse_seed();
             let known = props::known::load(&verif_root().join("known_findings.txt"));
-            let rep = match props::run(&id, tier, seed, &known) {
+            let run = std::panic::catch_unwind(std::panic::AssertUnwindSafe(|| props::run(&id, tier, seed, &known)));
+            let run = match run {
+                Ok(r) => r,
+                Err(_) => {
+                    let m = engine::LAST_PANIC.with(|p| p.borrow_mut().take()).unwrap_or_default();
+                    eprintln!("harness: internal panic while running {} (exit 2, not a violation): {}", id, m);
+                    std::process::exit(2);
+                }
+            };
+            let rep = match run {
                 Some(r) => r,
                 None => {
                     eprintln!("harness: unknown property {}", id);
